@@ -630,7 +630,9 @@ def _oracle(base, prog, res):
             if sig != ref:
                 probs.append(("dtype", "frame %d %s %r has dtype %s, the full read has %s" % (
                     k, "index level" if name in index_names(df) else "column", name, sig, ref)))
-        if cats_arg is None and len(df) > 0:
+        if cats_arg is None:
+            # (also for an EMPTY frame: full.head(0) keeps the labels; what an empty SELECTION - no row group to read a
+            #  dictionary from - delivers instead is the open finding C06-empty-selection-placeholder-categories)
             for name, oc in frame_categories(df).items():
                 ref = base["full_categories"].get(name)
                 if ref is not None and name not in base["pcols"] and oc != ref:
@@ -892,6 +894,9 @@ def classify(ds, base, prog, probs, res):
         comp = "multi-index"
     elif base["pcols"] and nsel == 0 and what in ("columns", "error"):
         comp = "empty-selection-partition-columns"
+    elif nonempty == 0 and probs and all(p[0] == "dtype" and "categorical column" in p[1] for p in probs):
+        # no row group selected (empty slice, a filter that keeps nothing): no dictionary page is read
+        comp = "empty-selection-placeholder-categories"
     elif "NAType" in msg and any(k in F.NULLABLE_INT or k == "boolean" or
                                  (k == "cat_int" and rd[0] == "iter" and rd[3] is not None and n not in rd[3])   # read as nullable int
                                  for n, k in zip(inames, ikinds)):
